@@ -212,6 +212,8 @@ func c01Race(driver, scen string, bound int) vh.Unit {
 		"withdraw-vs-credit":        {"withdraw W1 ok", "upd C2 H1"},
 		"withdraw-vs-two-credits":   {"withdraw W1 ok", "upd C2 H1", "upd C1 H1,H2"},
 		"failed-withdraw-vs-credit": {"withdraw W1 fail", "upd C2 H1"},
+		// ... and while the wallet's own client is billed (the wallet is debited during the settlement)
+		"withdraw-vs-debit": {"withdraw W1 ok", "upd C1 H2"},
 	}[scen]
 	body := func() {
 		pw = c01World(driver, c01Cfg{"1000", "1m", "off"}, nil)
@@ -347,7 +349,7 @@ func init() {
 					us = append(us, c01Race(d, sc, bound))
 				}
 				us = append(us, c01Race(d, "link-vs-link", bound-1), c01Race(d, "three-clients", bound-1))
-				us = append(us, c01Race(d, "withdraw-vs-credit", bound), c01Race(d, "failed-withdraw-vs-credit", bound), c01Race(d, "withdraw-vs-two-credits", bound-1))
+				us = append(us, c01Race(d, "withdraw-vs-credit", bound), c01Race(d, "failed-withdraw-vs-credit", bound), c01Race(d, "withdraw-vs-two-credits", bound-1), c01Race(d, "withdraw-vs-debit", bound))
 			}
 			return us
 		},
